@@ -21,6 +21,7 @@
      timeout   the harness fired n's (virtual) dBFT timer at dBFT height h
      sync      quiescent point of node n: h = ledger height, pool = its memory pool, read from the real objects
      epoch     all nodes have been observed at the quiescent point: a new epoch begins
+     decide    the height h of node n was played to the end with every non-silent validator honest: decided, view, via
      round     (mesh) one synchronous round: earliest timer fired, everything delivered; minh = lowest ledger height
      end
 
@@ -49,6 +50,7 @@ Told(n)          == {<<k[2], k[3]>> : k \in {k \in IV : k[1] = n}}
 BTold(n)         == {<<k[2], k[3]>> : k \in {k \in BI : k[1] = n}}
 Good(n)          == {o.t : o \in {o \in OF : o.n = n /\ o.ok}}
 Bad(n)           == {o.t : o \in {o \in OF : o.n = n /\ ~o.ok}}
+BadAfter(n, k)   == {o.t : o \in {o \in OF : o.n = n /\ ~o.ok /\ o.l > k}}
 Own(n, ty, h, v) == {o \in OW : o.n = n /\ o.type = ty /\ o.h = h /\ o.view = v}
 OwnAt(n, ty, h)  == {o \in OW : o.n = n /\ o.type = ty /\ o.h = h}
 BlocksAt(i)      == {AB[k] : k \in {k \in DOMAIN AB : k[2] = i}} \cup {q.b : q \in {q \in QB : q.i = i}}
@@ -87,7 +89,10 @@ SyncChecks(e) ==
         resp == Own(n, "PrepareResponse", d.h, d.view) # {}
         cv   == OwnAt(n, "ChangeView", d.h) # {}
         allgood == cur /\ AllGood(d.txs, R.pb, Good(n), Bad(n))
-        onlybad == cur /\ SomeOnlyBad(d.txs, R.pb, Good(n), Bad(n))
+        \* the service's request for this proposal (bad copies count once they arrive in answer to it)
+        rqR  == {q \in RQ : q.n = n /\ q.e >= R.e}
+        rql  == IF rqR = {} THEN 1000000000 ELSE CHOOSE m \in {q.l : q \in rqR} : \A q \in rqR : m <= q.l
+        onlybad == cur /\ SomeOnlyBad(d.txs, R.pb, Good(n), BadAfter(n, rql))
         \* ---- what the server made of the service's requests of this epoch
         rq   == {q \in RQ : q.n = n /\ q.e = E}
         want == UNION {q.txs : q \in rq}
@@ -110,9 +115,11 @@ SyncChecks(e) ==
                NameIf(lostD = {}, "Delivery:missing") \cup NameIf(futD = {}, "InvalidAccepted:future-delivered")
                \cup NameIf(notRelayed = {}, "Relay:missing") \cup NameIf(senderOnly = {}, "i:Relay:sender-only")
                \cup NameIf(unansw = {}, "Relay:getdata-unanswered")
-               \cup NameIf(~allgood \/ resp, "ProposalTxs:no-response") \cup NameIf(~allgood \/ ~cv, "ProposalTxs:refused-good")
-               \cup NameIf(~onlybad \/ cv, "ProposalTxs:bad-not-refused") \cup NameIf(~onlybad \/ ~resp, "ProposalTxs:accepted-bad")
-               \cup NameIf(notAsked = {}, "ProposalTxs:peer-not-asked") \cup NameIf(askedOther = {}, "ProposalTxs:peer-asked-other")
+               \* a missing / refused answer to ONE proposal only delays the height (the timer and the next view resolve it): these are
+               \* informational; what is judged is that the height gets decided (event decide) and that nothing unverified is accepted
+               \cup NameIf(~allgood \/ resp, "i:ProposalTxs:no-response") \cup NameIf(~allgood \/ ~cv, "i:ProposalTxs:refused-good")
+               \cup NameIf(~onlybad \/ cv, "i:ProposalTxs:bad-not-refused") \cup NameIf(~onlybad \/ ~resp, "ProposalTxs:accepted-bad")
+               \cup NameIf(notAsked = {}, "i:ProposalTxs:peer-not-asked") \cup NameIf(askedOther = {}, "i:ProposalTxs:peer-asked-other")
                \cup NameIf(notLedger = {}, "BlockOut:not-in-ledger") \cup NameIf(notAnn = {}, "BlockOut:not-announced")
                \cup NameIf(wrongB = {}, "BlockOut:wrong-block") \cup NameIf(unfetched = {}, "BlockOut:getdata-unanswered")
                \cup NameIf(~mustRun \/ s.started, "ServiceStart:not-started")
@@ -156,7 +163,7 @@ Step ==
                         /\ Report(l, NameIf(Has(XD, e.x), "x:UnknownPayload"), [ev |-> e])
                         /\ Unch(<<OF, FQ, GX>>)
                    [] e.m = "tx" ->
-                        /\ OF' = OF \cup {[n |-> e.n, t |-> e.t, ok |-> e.ok, e |-> ep]}
+                        /\ OF' = OF \cup {[n |-> e.n, t |-> e.t, ok |-> e.ok, e |-> ep, l |-> l]}
                         /\ Unch(<<SN, DIRTY, FQ, GX>>)
                    [] e.m = "getdata" /\ e.typ = "block" ->
                         /\ FQ' = FQ \cup {[n |-> e.n, p |-> e.p, b |-> b, e |-> ep] : b \in ToSet(e.hs)}
@@ -222,9 +229,9 @@ Step ==
               /\ LET R == IF Has(LR, e.n) THEN LR[e.n] ELSE [x |-> "", pb |-> {}, e |-> 0, first |-> FALSE]
                      d == Def(R.x)
                      maybe == {o.t : o \in {o \in OF : o.n = e.n /\ (o.e = ep \/ o.ok)}}
-                 IN Report(l, NameIf(Has(LR, e.n), "x:RequestWithoutProposal")
-                              \cup NameIf(~Has(LR, e.n) \/ AsksOnlyMissing(ToSet(e.txs), d.txs, ST[e.n].pool), "ProposalTxs:asked-for-held")
-                              \cup NameIf(~Has(LR, e.n) \/ AsksAllMissing(ToSet(e.txs), d.txs, ST[e.n].pool, maybe), "ProposalTxs:missing-not-asked"),
+                 IN Report(l, NameIf(Has(LR, e.n), "i:RequestWithoutProposal")
+                              \cup NameIf(~Has(LR, e.n) \/ AsksOnlyMissing(ToSet(e.txs), d.txs, ST[e.n].pool), "i:ProposalTxs:asked-for-held")
+                              \cup NameIf(~Has(LR, e.n) \/ AsksAllMissing(ToSet(e.txs), d.txs, ST[e.n].pool, maybe), "i:ProposalTxs:missing-not-asked"),
                            [ev |-> [n |-> e.n, asked |-> Len(e.txs)], proposal |-> R.x, named |-> Cardinality(d.txs)])
               /\ Unch(<<ep, nv, ND, ST, XD, SN, DC, IV, CN, DIRTY, OF, AK, OW, QB, AB, BI, TO, FQ, GX, RX, GB, LR, PG>>)
          [] e.event = "queued" ->
@@ -260,6 +267,11 @@ Step ==
               /\ PG' = IF e.first \/ e.minh > PG.base THEN [base |-> e.minh, rounds |-> 0] ELSE [PG EXCEPT !.rounds = @ + 1]
               /\ Report(l, NameIf(e.first \/ e.minh > PG.base \/ PG.rounds + 1 <= e.bound, "Stalled"), [ev |-> e, base |-> PG.base, rounds |-> PG.rounds])
               /\ Unch(<<ep, nv, ND, ST, XD, SN, DC, IV, CN, DIRTY, OF, RQ, AK, OW, QB, AB, BI, TO, FQ, GX, RX, GB, LR>>)
+         [] e.event = "decide" ->
+              \* everybody who is not silent is honest and serves the named transactions: the height is decided in SOME view
+              \* (views 0..2 were played to the end: proposal, responses, commits, timers, change views)
+              /\ Report(l, NameIf(e.decided, "Stalled:undecided") \cup NameIf(~e.decided \/ (e.view = 0 /\ e.via = "consensus"), "i:DecidedLater"), [ev |-> e])
+              /\ Unch(<<ep, nv, ND, ST, XD, SN, DC, IV, CN, DIRTY, OF, RQ, AK, OW, QB, AB, BI, TO, FQ, GX, RX, GB, LR, PG>>)
          [] e.event = "included" ->
               \* end of a synchronous phase: transactions pooled by every node at its start are in blocks (pending = not yet)
               /\ Report(l, NameIf(e.pending = <<>>, "ProposalTxs:pending-never-included"), [ev |-> e])
